@@ -6,8 +6,8 @@ import re
 
 
 def register_all(E):
-    from . import tracing_models, core_models, str_models, coll_models, fmt_models
-    for mod in (tracing_models, core_models, str_models, coll_models, fmt_models):
+    from . import tracing_models, uri_models, jsint_models, core_models, str_models, coll_models, fmt_models
+    for mod in (tracing_models, uri_models, jsint_models, core_models, str_models, coll_models, fmt_models):
         mod.register(E)
 
 
